@@ -25,6 +25,10 @@ ASSUMPTIONS = ["an ideal generator answers each request uniformly and independen
 SKIPPED = [0]
 
 
+class TreeTooLarge(Exception):
+    pass
+
+
 def explore(fn, limit=200000):
     """all leaves of the decision tree of fn(tape); returns [(answers, outcome)]"""
     leaves = []
@@ -83,6 +87,19 @@ def designs(tier):
         yield {"d": "randomize_group", "g": g}
     for g, s in (([0, 1, 0, 1], [0, 0, 1, 1]), ([0, 1, 1, 0], [0, 0, 0, 1]), ([0, 1, 2], [5, 5, 5])):
         yield {"d": "randomize_in_strata", "g": g, "s": s}
+    # the stratified TESTS themselves (not only the helper): every within-stratum arrangement of the responses must reach the
+    # statistic equally often, also when NaN-coded non-responders make the statistic NaN for some arrangements, for a
+    # recording callable and for the named 'mean' / 't' statistics
+    for g, cnd, resp in (([0, 0, 0, 0], [0, 0, 1, 1], [1.0, None, None, 8.0]),
+                         ([0, 0, 0, 1, 1], [0, 1, 1, 0, 1], [1.0, None, None, 8.0, 16.0]),
+                         ([0, 0, 1, 1], [0, 1, 0, 1], [1.0, 2.0, None, 8.0]),
+                         ([0, 0, 0], [0, 1, 1], [1.0, 2.0, 4.0])):
+        for st in ("rec", "mean", "t"):
+            for keep in (True, False):
+                if st != "rec" and not keep:
+                    continue
+                yield {"d": "s2s", "g": g, "c": cnd, "resp": resp, "stat": st, "reps": 1, "keep": keep}
+    yield {"d": "s2s", "g": [0, 0, 0], "c": [0, 1, 1], "resp": [1.0, None, 4.0], "stat": "rec", "reps": 2, "keep": True}
     yield {"d": "rs_structure"}
 
 
@@ -152,6 +169,36 @@ def run(c):
             ksample.k_sample(x, g, reps=c["reps"], stat=st, keep_dist=True, seed=t)
             return tuple(rec[1:])
         leaves = explore(f)
+    elif d == "s2s":
+        g = np.array(c["g"]); cnd = np.array(c["c"]); resp = np.array([np.nan if v is None else v for v in c["resp"]], dtype=float)
+        enc = lambda v: "nan" if (isinstance(v, float) and math.isnan(v)) else float(v)
+        def f(t):
+            if t_count[0] > 400:
+                raise TreeTooLarge()
+            rec = []
+            def st(u):
+                rec.append(tuple(enc(float(v)) for v in u))
+                return float("nan") if math.isnan(float(u[0])) else 0.0      # NaN for some arrangements, as an empty arm gives
+            kw = dict(reps=c["reps"], seed=t, alternative="greater")
+            if c["stat"] == "rec":
+                if c["keep"]:
+                    stratified.stratified_two_sample(g, cnd, resp, stat=st, keep_dist=True, **kw)
+                else:
+                    stratified.stratified_two_sample(g, cnd, resp, stat=st, keep_dist=False, **kw)
+                return tuple(rec[1:])
+            r = stratified.stratified_two_sample(g, cnd, resp, stat=c["stat"], keep_dist=True, **kw)
+            return tuple(enc(float(v)) for v in r[2])
+        t_count = [0]
+        def counted(t):
+            t_count[0] += 1
+            return f(t)
+        try:
+            import warnings
+            with warnings.catch_warnings():
+                warnings.simplefilter("ignore")
+                leaves = explore(counted, limit=400)
+        except (TreeTooLarge, RuntimeError):
+            return {"tree_too_large": True}
     elif d in ("randomize_group", "randomize_in_strata"):
         def f(t):
             fn = NPC.randomize_group if d == "randomize_group" else NPC.randomize_in_strata
@@ -175,7 +222,7 @@ def run(c):
         w = Fraction(1)
         for (b, _) in log: w /= b
         weights[o] += w
-    return {"n_leaves": len(leaves), "outcomes": [[list(k) if not isinstance(k, (int, float)) else k, str(weights[k])] for k in sorted(cnt)],
+    return {"n_leaves": len(leaves), "outcomes": [[list(k) if not isinstance(k, (int, float)) else k, str(weights[k])] for k in sorted(cnt, key=str)],
             "leaves": [[log, o] for (log, o) in leaves[:3000]], "total_weight": str(sum(weights.values()))}
 
 
@@ -227,6 +274,8 @@ def oracle(c, o):
         if o["structure"] != want:
             return {"why": f"RandomState call structure {o['structure']} differs from one shuffle/randint/random call per repetition (or group) {want}", "cls": "randomstate:call-structure"}
         return None
+    if o.get("tree_too_large"):
+        return {"why": f"{d} {c}: the decision tree of the call does not end after one within-stratum pass per repetition (more than 400 leaves): the number of draws depends on the values drawn", "cls": f"{d}:draws-depend-on-data"}
     if Fraction(o["total_weight"]) != 1:
         return {"why": "decision tree weights do not sum to 1", "cls": f"{d}:tree"}
     w = {tuple(map(lambda z: tuple(z) if isinstance(z, list) else z, k)) if isinstance(k, list) else k: Fraction(v) for k, v in o["outcomes"]}
@@ -265,6 +314,46 @@ def oracle(c, o):
             return {"why": f"one_sample {c}: sign vectors produced differ from all 2^n (per repetition)", "cls": "one_sample:support"}
         if len(set(w.values())) != 1:
             return {"why": f"one_sample {c}: sign vectors not uniform / repetitions not independent", "cls": "one_sample:not-uniform"}
+        return None
+    if d == "s2s":
+        from ..strat_runs import doc_stat
+        g = np.array(c["g"]); cnd = np.array(c["c"]); resp = np.array([np.nan if v is None else v for v in c["resp"]], dtype=float)
+        ordd = cnd.argsort(kind="stable")
+        # the responses sorted by condition: ties in the sort order permute units inside a condition; the set of
+        # within-stratum arrangements of the sorted vector does not depend on how they are broken only if the strata
+        # of the tied units agree, which the designs guarantee up to the statistic's symmetry (recorded vectors are
+        # compared as multisets per (stratum, position-set) below)
+        g0 = g[ordd].tolist(); c0 = cnd[ordd].tolist(); r0 = resp[ordd].tolist()
+        enc = lambda v: "nan" if (isinstance(v, float) and math.isnan(v)) else float(v)
+        n = len(g0)
+        per = [list(itertools.permutations([i for i in range(n) if g0[i] == k])) for k in sorted(set(g0))]
+        want = Counter()
+        for combo in itertools.product(*([list(itertools.product(*per))] * c["reps"])):
+            outs = []
+            for one in combo:
+                u = [None] * n
+                for k, perm in zip(sorted(set(g0)), one):
+                    pos = [i for i in range(n) if g0[i] == k]
+                    for i, v in zip(pos, perm): u[i] = r0[v]
+                if c["stat"] == "rec":
+                    outs.append(tuple(enc(float(v)) for v in u))
+                else:
+                    import warnings
+                    with warnings.catch_warnings():
+                        warnings.simplefilter("ignore")
+                        outs.append(enc(float(doc_stat("s2s_" + c["stat"], g0, c0, u))))
+            want[tuple(outs)] += 1
+        tot = sum(want.values())
+        want = {k: Fraction(v, tot) for k, v in want.items()}
+        def rnd(k):
+            return tuple(tuple(x) if isinstance(x, (list, tuple)) else (x if x == "nan" else round(x, 9)) for x in k)
+        got = Counter(); 
+        for k, v in w.items(): got[rnd(k)] += v
+        wantr = Counter()
+        for k, v in want.items(): wantr[rnd(k)] += v
+        if dict(got) != dict(wantr):
+            return {"why": f"stratified_two_sample {c}: the distribution of {'the arrangements handed to the statistic' if c['stat'] == 'rec' else 'the simulated statistic'} under an ideal generator, {[(k, str(v)) for k, v in sorted(got.items(), key=str)[:6]]}, is not the uniform law on the within-stratum arrangements, {[(k, str(v)) for k, v in sorted(wantr.items(), key=str)[:6]]}",
+                    "cls": "stratified_two_sample:not-uniform"}
         return None
     if d == "k_sample":
         g = c["g"]; reps = c["reps"]
